@@ -5,6 +5,7 @@
    acceptor of copy.go (Model/CopySpec.v) extended with fault events -- an error returned
    by dst.Exists [ExX], src.Fetch [SFX], dst.Push/PushReference before or after the content
    was stored [PuX n ref stored], dst.Tag before or after the reference was set [TagX n set],
+   registry.Mounter.Mount before / after the blob was mounted or uploaded [MtX n stored],
    a user callback [Ev (CbFail k n)], an operation of the
    sequential prologue (Resolve / MapRoot / Predecessors, [ProX]) -- and cancellation of
    the call's context at any moment [Cancel].
